@@ -846,7 +846,8 @@ fn get_where_filters(params: &EntityParams, prepared_query: &mut SingleQuery, t:
         }
     }
     if !params.json_filters.is_empty() {
-        q.push_str("AND ");
+        //the previous filter can end with a number or a keyword: it is separated from this one
+        q.push_str("\nAND ");
         q.push('\n');
         tab(&mut q, t);
         let it = &mut params.json_filters.iter().peekable();
